@@ -670,6 +670,17 @@ theorem detectorEncodings_head (enc : PStr) (rest : List PStr) (sniffed declared
 theorem attempt_ok (T : MsTables) (r : PStr) (mode : Mode) (data : Bytes) (u : PStr)
     (h : convertWith T r mode false data = some u) : attempt T r mode false data = .ok u := by
   unfold attempt
+  by_cases hd : data = []
+  · subst hd
+    simp only [if_true]
+    unfold convertWith at h
+    cases hco : codecOf r with
+    | none => simp [hco] at h
+    | some c =>
+      simp only [hco, Bool.false_eq_true, if_false] at h
+      have hs : substituteWith T mode [] = [] := rfl
+      cases c <;> (split at h <;> simp_all [decodeStrict, decodeTable, decodeUtf8])
+  simp only [hd, if_false]
   have hc : (codecOf r).isSome = true := by
     unfold convertWith at h
     cases hco : codecOf r with
